@@ -10,8 +10,23 @@ these generated definitions.
 Tie: the driver evaluates the generated definitions at `Float` through the hand-written
 model of `_generate_window_strategies` (registry, aliases, defaults) and sends the exact
 binary values; they are compared with the lists the real strategies return.
+
+Histories (entry "history"): the property fixes `window.X(size)` / `wsymm.X(size)` as a function of
+the arguments of EACH call.  A history is 1..4 calls to the same and to related strategies (aliases,
+`.periodic` / `.symm` links, window vs wsymm, same size / size+1, other spelling of alpha) between
+which the CALLER changes, in place, the lists it received (`p.append(p[0])` — the recipe of the
+periodic windows' own docstring —, scale, sort, clear, NaN, ...).  Every call is compared with the
+Lean model/spec of that call alone (the model of a history, `ALV.C14.runHistory`, answers each call by
+`call` of its own arguments and allocates a new object per call: `Props.C14.history_outcomes`,
+`history_fresh_objects`), plus identity checks: two calls never return the same list object, no call
+changes a list handed out earlier, no returned list stays referenced by / reachable from the strategy
+function (closure, defaults, attributes, globals).  Histories run on a NEW instance of
+`lazy_analysis` (world "new": the source exec'ed into a second module object) or, world "imported",
+on the imported `audiolazy.window` / `wsymm` objects in a child of a forked copy of the process made
+before any strategy was called: always from the state the import leaves (reproducible by --replay),
+and nothing a history does reaches the other cases.
 """
-import ast, os, re, warnings
+import ast, collections, gc, json, os, re, sys, types, warnings
 from fractions import Fraction
 
 import common
@@ -369,7 +384,13 @@ RULE = ("every (dictionary, name/alias, size) for sizes 0..96 plus sampled sizes
         "(thorough), blackman/cos over an alpha grid (int and float alphas, defaults), several access routes; "
         "a small malformed stream (unknown names, alpha for strategies without one, negative alpha for cos, "
         "negative sizes); plus the documented closed form (docstring `.. math::`) of every strategy evaluated by a small "
-        "LaTeX evaluator.  Non-trivial: the impl returns a list of at least 2 samples; distinct = distinct JSON case")
+        "LaTeX evaluator; plus HISTORIES of 1..4 calls (same call repeated, aliases, access routes, other dictionary, "
+        "the window(size)/wsymm(size+1) prefix pair, size+-1, other alpha / other spelling of the same alpha, other "
+        "strategy) with the caller changing the returned lists in place between the calls (append first sample, scale, "
+        "sort, clear, NaN, decrement last, pop, double, nothing): exhaustive over (dictionary, name, size 1/4, mutation) "
+        "for call-mutate-call, the docstring recipe for every strategy, random ones; each call against the model/spec of "
+        "that call alone + object identity checks.  Non-trivial: the impl returns a list of at least 2 samples (history: "
+        "at least 2 calls, one with 2 samples); distinct = distinct JSON case")
 TRUSTED = [
     "translator T2 (harness/props/c14.py: ast -> lean/ALV/Gen/Windows.lean), cross-checked on every run: the generated "
     "definitions are evaluated at Float by the driver and compared with the lists the real strategies return",
@@ -378,11 +399,18 @@ TRUSTED = [
     "Float instance of TrigField (libm cos/sin/pow through the Lean runtime) is only used on the correspondence side; "
     "the theorems are over the reals",
     "integer-typed sub-expressions of a formula such as (size + 2) are computed in the number class (exact below 2^53)",
+    "histories: CPython object identity (`is`), sys.getrefcount / gc.get_referrers and a bounded walk over the strategy "
+    "function's closure, defaults, attributes and globals are the observations of aliasing; histories of world 'new' run "
+    "on a second instance of audiolazy.lazy_analysis (same source, exec'ed into a new module object), world 'imported' on "
+    "the imported objects in a child of a forked copy of the harness process made before any strategy call",
 ]
 ASSUMPTIONS = [
     "theorems are over R (Mathlib); float rounding is bounded only by the comparator (1e-12 relative), "
     "except the periodic-prefix relation, which is syntactic and is checked bit-exactly on the impl",
     "range [0,1]: blackman for alpha in [-1/4, 1/4], cos for alpha >= 0 (outside, the closed forms really leave [0,1])",
+    "a strategy is specified as a function of the arguments of each call: the caller owns the returned list (the "
+    "docstring of every periodic window tells it to append the first sample), so a history in which an earlier result "
+    "was changed in place must give the same samples as the call alone, in a new list object",
     "wsymm lacks the aliases 'dirichlet'/'rectangular' of the shared rect strategy (DESIGN.md section 8: observation, "
     "not counted as a violation); the tie accepts KeyError or the rect list there and counts it in the histogram",
 ]
@@ -469,7 +497,202 @@ def generate(rng, tier, scale=1):
                 cases.append(_mk(dict_, name, 4))                      # KeyError
             for size in (-1, -7):
                 cases.append(_mk(dict_, "hamming", size))              # xrange(negative): empty list
-    return cases
+    return cases + _gen_histories(rng, tier, scale)
+
+
+# ---------------------------------------------------------------------------------------------
+# histories: generation
+# ---------------------------------------------------------------------------------------------
+MUTS = ("append0", "scale", "sort", "clear", "nan", "dec", "pop", "double", "none")
+MUT_TEXT = {"append0": "{p}.append({p}[0])", "scale": "{p}[:] = [2 * x for x in {p}]", "sort": "{p}.sort()",
+            "clear": "del {p}[:]", "nan": "{p}[len({p}) // 2] = nan", "dec": "{p}[-1] -= 1", "pop": "{p}.pop()",
+            "double": "{p} += list({p})", "none": "nothing"}
+RELATIONS = ("same", "same", "alias", "alias", "route", "otherdict", "prefixpair", "prefixpair", "size+1", "size-1",
+             "alpha-spelling", "other-alpha", "default", "other-strategy")
+ALPHA_DEFAULT = {"blackman": 0.16, "cos": 1}          # documented defaults (spec side)
+
+
+def _step(dict_, name, size, alpha=None, route="item", kw=False, mut="none"):
+    s = _mk(dict_, name, size, alpha, route, kw)
+    del s["entry"]
+    s["mut"] = mut
+    return s
+
+
+def _hist(steps, world="new"):
+    return {"entry": "history", "world": world, "steps": [dict(s) for s in steps]}
+
+
+def _kind_of(name):
+    if name is None:
+        return "hann"                                    # documented default strategy of both dictionaries
+    for kind, names in _names():
+        if name in names:
+            return kind
+    return None
+
+
+def _wsymm_name(name):
+    """observation O1: wsymm knows the shared rect strategy only as 'rect'"""
+    return "rect" if name in ("dirichlet", "rectangular") else name
+
+
+def _related(rng, st, rel):
+    """a call related to the call `st` (mutation not set)"""
+    d = dict(st)
+    kind = _kind_of(st["name"])
+    names = dict(_names()).get(kind, [st["name"]])
+    other = "wsymm" if st["dict"] == "window" else "window"
+    if rel == "alias":
+        d["name"] = rng.choice(names)
+    elif rel == "route":
+        d["route"] = rng.choice(ROUTES)
+    elif rel == "otherdict":
+        d["dict"] = other
+    elif rel == "prefixpair":
+        d["dict"] = other
+        d["size"] = st["size"] + 1 if other == "wsymm" else max(st["size"] - 1, 0)
+    elif rel == "size+1":
+        d["size"] = st["size"] + 1
+    elif rel == "size-1":
+        d["size"] = max(st["size"] - 1, 0)
+    elif rel == "alpha-spelling" and kind in ALPHA_KINDS and st["name"] is not None:
+        a = _alpha_of(st)
+        if a is None:                                     # the default, spelled out (int / float, positional / keyword)
+            a = ALPHA_DEFAULT[kind] if rng.random() < 0.7 else float(ALPHA_DEFAULT[kind])
+            d = _step(st["dict"], st["name"], st["size"], a, st.get("route", "item"), rng.random() < 0.5)
+        elif float(a) == float(ALPHA_DEFAULT[kind]) and rng.random() < 0.5:
+            d = _step(st["dict"], st["name"], st["size"], None, st.get("route", "item"))
+        else:
+            d["alpha_kw"] = not st.get("alpha_kw")
+    elif rel == "other-alpha" and kind in ALPHA_KINDS and st["name"] is not None:
+        a = rng.choice([x for x in _alpha_grid(kind)[1:] if kind != "cos" or x >= 0])
+        d = _step(st["dict"], st["name"], st["size"], a, st.get("route", "item"), rng.random() < 0.5)
+    elif rel == "default" and kind == "hann":
+        d = _step(st["dict"], None if st["name"] is not None else "hann", st["size"])
+    elif rel == "other-strategy":
+        k2, n2 = rng.choice(_names())
+        d = _step(st["dict"], rng.choice(n2), st["size"], route=st.get("route", "item"))
+    if d["dict"] == "wsymm":
+        d["name"] = _wsymm_name(d["name"])
+    if d["name"] is None:
+        d["route"] = "item"
+    d["mut"] = "none"
+    return d
+
+
+def _rand_history(rng, top, world="new"):
+    dict_ = rng.choice(("window", "wsymm"))
+    kind, names = rng.choice(_names())
+    name = rng.choice(names)
+    size = rng.choice([0, 1, 1, 2, 2, 3, 4, 5, 8, rng.randint(0, 16), rng.randint(0, 16), rng.randint(0, 64),
+                       4 * rng.randint(1, 16), rng.randint(0, top)])
+    alpha = None
+    if kind in ALPHA_KINDS and rng.random() < 0.5:
+        alpha = rng.choice([x for x in _alpha_grid(kind)[1:] if kind != "cos" or x >= 0] + [ALPHA_DEFAULT[kind]])
+    steps = [_step(dict_, _wsymm_name(name) if dict_ == "wsymm" else name, size, alpha, rng.choice(ROUTES),
+                   rng.random() < 0.5)]
+    for _ in range(rng.choice((1, 1, 2, 2, 2, 3, 3)) if size <= 64 else 1):
+        steps.append(_related(rng, rng.choice(steps[-2:]), rng.choice(RELATIONS)))
+    for i, s in enumerate(steps):
+        last = i == len(steps) - 1
+        s["mut"] = rng.choice(MUTS[:-1] + MUTS[:5]) if rng.random() < (0.3 if last else 0.85) else "none"
+    return _hist(steps, world)
+
+
+def _gen_histories(rng, tier, scale):
+    _pristine_copy()             # (made now: no strategy has been called yet in this process)
+    quick = tier == "quick"
+    top = 256 if quick else 4096
+    out = []
+    if scale == 1:
+        for dict_ in ("window", "wsymm"):
+            for kind, names in _names():
+                for name in names:
+                    if dict_ == "wsymm" and name != _wsymm_name(name):
+                        continue
+                    # call, caller changes ITS list, the same call again: every mutation, a size with one sample
+                    # and one with several (thorough: a few more)
+                    for size in ((1, 4) if quick else (0, 1, 2, 4, 5, 9)):
+                        for mut in MUTS[:-1]:
+                            out.append(_hist([_step(dict_, name, size, mut=mut), _step(dict_, name, size)]))
+                    # nothing changed: two calls still return two objects (and a later call with other arguments
+                    # does not rewrite the list of the first)
+                    for size in (0, 1, 3):
+                        out.append(_hist([_step(dict_, name, size), _step(dict_, name, size), _step(dict_, name, size + 2)]))
+                # the warm case: the second call may come from a store the first call filled
+                out.append(_hist([_step(dict_, kind, 6), _step(dict_, kind, 6, mut="scale"), _step(dict_, kind, 6)]))
+                out.append(_hist([_step(dict_, kind, 1), _step(dict_, kind, 1, mut="dec"), _step(dict_, kind, 1)]))
+        for kind, names in _names():
+            for size in (1, 2, 5, 8, 12):
+                for name in names[:1] if quick and size > 2 else names:
+                    # the recipe of the periodic windows' docstring: "append the first sample at the end to get a
+                    # size + 1 symmetric window", then a gain applied in place to the symmetric one, then both again
+                    out.append(_hist([_step("window", name, size, mut="append0"),
+                                      _step("wsymm", _wsymm_name(name), size + 1, mut="scale"),
+                                      _step("window", name, size),
+                                      _step("wsymm", _wsymm_name(name), size + 1)]))
+                # symmetric first, periodic afterwards (and back)
+                out.append(_hist([_step("wsymm", kind, size + 1, mut=MUTS[size % 8]), _step("window", kind, size),
+                                  _step("wsymm", kind, size + 1)]))
+            # wsymm.X(1) is [1.0] whatever was done to the [1.0] of X and of the OTHER strategies
+            ks = [k for k, _n in _names()]
+            i = ks.index(kind)
+            out.append(_hist([_step("wsymm", kind, 1, mut="dec"), _step("wsymm", ks[(i + 1) % len(ks)], 1, mut="nan"),
+                              _step("wsymm", ks[(i + 2) % len(ks)], 1, mut="clear"), _step("wsymm", kind, 1)]))
+            out.append(_hist([_step("wsymm", kind, 1, mut="append0"), _step("window", ks[(i + 3) % len(ks)], 1)]))
+            # alpha spelled in the three ways
+            if kind in ALPHA_KINDS:
+                a = ALPHA_DEFAULT[kind]
+                for dict_ in ("window", "wsymm"):
+                    out.append(_hist([_step(dict_, kind, 5, mut="sort"), _step(dict_, kind, 5, a, mut="append0"),
+                                      _step(dict_, kind, 5, a, kw=True, mut="clear"), _step(dict_, kind, 5)]))
+                    out.append(_hist([_step(dict_, kind, 4, 2, mut="double"), _step(dict_, kind, 4, 2.0, mut="nan"),
+                                      _step(dict_, kind, 4, 2, kw=True)]))
+        main = MUTS[:5]
+        for kind, names in _names():
+            # aliases: one strategy under two names
+            for dict_ in ("window", "wsymm"):
+                ns = names if dict_ == "window" else sorted({_wsymm_name(n) for n in names}, key=names.index)
+                for n1 in ns:
+                    for n2 in ns:
+                        if n1 != n2:
+                            for size in (1, 4):
+                                for mut in main:
+                                    out.append(_hist([_step(dict_, n1, size, mut=mut), _step(dict_, n2, size)]))
+                # the four access routes to one strategy
+                for i, r1 in enumerate(ROUTES):
+                    r2 = ROUTES[(i + 1 + len(kind)) % 4] if ROUTES[(i + 1 + len(kind)) % 4] != r1 else ROUTES[(i + 1) % 4]
+                    out.append(_hist([_step(dict_, kind, 5, route=r1, mut=MUTS[(i + len(kind)) % 8]),
+                                      _step(dict_, names[-1] if dict_ == "window" else kind, 5, route=r2)]))
+        for dict_ in ("window", "wsymm"):
+            for mut in MUTS[:-1]:
+                # the dictionary called directly = its default strategy (hann)
+                out.append(_hist([_step(dict_, None, 4, mut=mut), _step(dict_, "hann", 4)]))
+                out.append(_hist([_step(dict_, "hanning", 3, mut=mut), _step(dict_, None, 3)]))
+        for name in dict(_names())["rect"]:
+            for mut in main:
+                # rect: ONE function object in both dictionaries
+                out.append(_hist([_step("window", name, 3, mut=mut), _step("wsymm", "rect", 3)]))
+                out.append(_hist([_step("wsymm", "rect", 2, mut=mut), _step("window", name, 2)]))
+        # an exception in between (no alpha parameter, 0.0 ** -1) leaves nothing behind
+        for dict_ in ("window", "wsymm"):
+            out.append(_hist([_step(dict_, "cos", 3, mut="scale"), _step(dict_, "cos", 3, -1), _step(dict_, "cos", 3)]))
+            out.append(_hist([_step(dict_, "hann", 3, mut="clear"), _step(dict_, "hann", 3, 0.5), _step(dict_, "hann", 3)]))
+            out.append(_hist([_step(dict_, None, 4, mut="append0"), _step(dict_, "hann", 4, mut="pop"), _step(dict_, None, 4)]))
+    nrand = (260 if quick else 2600) * scale
+    nlive = (90 if quick else 600) * scale
+    for _ in range(nrand):
+        out.append(_rand_history(rng, top))
+    for _ in range(nlive):
+        out.append(_rand_history(rng, min(top, 64), "imported"))
+    if scale == 1:
+        # the docstring recipe once more on the imported objects themselves
+        for kind, _names_ in _names():
+            out.append(_hist([_step("window", kind, 5, mut="append0"), _step("wsymm", kind, 6, mut="scale"),
+                              _step("window", kind, 5), _step("wsymm", kind, 6)], "imported"))
+            out.append(_hist([_step("wsymm", kind, 1, mut="dec"), _step("wsymm", kind, 1)], "imported"))
+    return out
 
 
 # ---------------------------------------------------------------------------------------------
@@ -634,8 +857,11 @@ def _alpha_of(c):
     return int(v) if c.get("alpha_int") else float(v)
 
 
-def _lookup(c):
-    from audiolazy import window, wsymm
+def _lookup(c, ws=None):
+    if ws is None:
+        from audiolazy import window, wsymm
+    else:
+        window, wsymm = ws
     sd, other = (window, wsymm) if c["dict"] == "window" else (wsymm, window)
     name, route = c["name"], c.get("route", "item")
     if name is None:
@@ -659,13 +885,27 @@ def _keys(sd):
     return {k for ks in sd.keys() for k in ks}
 
 
-def impl(c):
-    if c["entry"] == "docmath":
-        return _impl_docmath(c)
-    if c["entry"] != "call":
-        return {"err": "OTHER:entry"}
+def _invoke(f, args, kw):
+    """-> (result, its reference count straight after the call)"""
+    out = f(*args, **kw)
+    return out, sys.getrefcount(out)
+
+
+_rc0 = []
+
+
+def _refcount_of_a_new_list():
+    if not _rc0:
+        _rc0.append(_invoke(lambda *a, **k: [0.5, float(len(a))], (2,), {})[1])
+    return _rc0[0]
+
+
+def _call_obs(c, ws=None):
+    """one call -> (observation, returned object | None, references to it held elsewhere, function | None)"""
+    f = out = None
+    extra = 0
     try:
-        f = _lookup(c)
+        f = _lookup(c, ws)
         a = _alpha_of(c)
         args, kw = (c["size"],), {}
         if a is not None:
@@ -673,13 +913,15 @@ def impl(c):
                 kw["alpha"] = a
             else:
                 args += (a,)
-        out = f(*args, **kw)
+        out, rc = _invoke(f, args, kw)
+        extra = rc - _refcount_of_a_new_list()
         if isinstance(out, list):
             cx = [i for i, x in enumerate(out) if type(x) is complex]
             if cx:                    # Python 3: negative ** non-integer is a complex number
-                return {"err": "ComplexSample", "index": cx[0], "value": repr(out[cx[0]]), "len": len(out)}
+                return ({"err": "ComplexSample", "index": cx[0], "value": repr(out[cx[0]]), "len": len(out)},
+                        out, extra, f)
         if not isinstance(out, list) or not all(type(x) is float for x in out):
-            return {"err": "OTHER:not-a-list-of-floats", "repr": repr(out)[:200]}
+            return {"err": "OTHER:not-a-list-of-floats", "repr": repr(out)[:200]}, out, extra, f
         obs = {"out": [enc(x) for x in out]}
         if c["dict"] == "window" and c["name"] is not None and c["size"] >= 0:
             # "equals the first size samples of wsymm.X(size+1) exactly"
@@ -689,12 +931,294 @@ def impl(c):
                 obs["prefix_exact"] = bool(len(longer) == c["size"] + 1 and longer[:c["size"]] == out)
             except Exception as e:
                 obs["prefix_exact"] = "err:" + err_kind(e)
-        return obs
+        return obs, out, extra, f
     except Exception as e:
-        return {"err": err_kind(e)}
+        return {"err": err_kind(e)}, None, 0, f
+
+
+def impl(c):
+    if c["entry"] == "docmath":
+        return _impl_docmath(c)
+    if c["entry"] == "history":
+        return _impl_history(c)
+    if c["entry"] != "call":
+        return {"err": "OTHER:entry"}
+    return _call_obs(c)[0]
+
+
+# ---------------------------------------------------------------------------------------------
+# histories: running them on the real code
+# ---------------------------------------------------------------------------------------------
+def _mutate(p, kind):
+    """what a caller does, in place, with a list it received"""
+    nan = float("nan")
+    if kind == "append0":
+        p.append(p[0] if p else 0.0)
+    elif kind == "scale":
+        p[:] = [2 * x for x in p]
+    elif kind == "sort":
+        p.sort()
+    elif kind == "clear":
+        del p[:]
+    elif kind == "nan":
+        if p:
+            p[len(p) // 2] = nan
+        else:
+            p.append(nan)
+    elif kind == "dec":
+        if p:
+            p[-1] -= 1
+        else:
+            p.append(-1.0)
+    elif kind == "pop":
+        if p:
+            p.pop()
+    elif kind == "double":
+        p += list(p)
+    elif kind != "none":
+        raise ValueError("unknown mutation %r" % kind)
+
+
+def _same_items(a, b):
+    return len(a) == len(b) and all(x == y or (x != x and y != y) for x, y in zip(a, b))
+
+
+def _floats_text(xs, n=6):
+    s = ", ".join(repr(x) for x in xs[:n])
+    return "[%s%s]" % (s, ", ... (%d items)" % len(xs) if len(xs) > n else "")
+
+
+_fresh = {}
+
+
+def _fresh_world():
+    """A second instance of audiolazy.lazy_analysis: the same source exec'ed into a new module object, so that
+    whatever state the window machinery keeps (in the module, in closures, on the functions) is new."""
+    import audiolazy.lazy_analysis as live
+    if "code" not in _fresh:
+        path = live.__file__
+        with warnings.catch_warnings():
+            warnings.simplefilter("ignore")
+            _fresh["code"] = compile(open(path, encoding="utf-8").read(), path, "exec")
+        _fresh["path"] = path
+    m = types.ModuleType(live.__name__)
+    m.__file__ = _fresh["path"]
+    m.__package__ = live.__package__
+    with warnings.catch_warnings():
+        warnings.simplefilter("ignore")
+        exec(_fresh["code"], m.__dict__)
+    return m.window, m.wsymm
+
+
+def _reachable(root, limit=1500, depth=6):
+    """(path, object) for the containers / functions reachable from a strategy function: closure cells, defaults,
+    attributes, wrapped functions, globals — bounded walk"""
+    import builtins
+    atoms = (float, int, str, bytes, bool, complex, type(None), types.ModuleType, type,
+             types.BuiltinFunctionType, types.CodeType)
+    seen = {id(root), id(builtins.__dict__)}
+    todo = collections.deque([("", root, 0)])       # breadth first: the function's own cells / defaults / attributes first
+    n = 0
+    while todo and n < limit:
+        path, o, d = todo.popleft()
+        n += 1
+        kids = []
+        if isinstance(o, types.FunctionType):
+            kids += [(".__closure__[%d]" % i, cell) for i, cell in enumerate(o.__closure__ or ())]
+            kids += [(".__defaults__", o.__defaults__), (".__kwdefaults__", o.__kwdefaults__),
+                     (".__dict__", o.__dict__), (".__globals__", o.__globals__)]
+        elif isinstance(o, types.CellType):
+            try:
+                kids.append((".cell_contents", o.cell_contents))
+            except ValueError:
+                pass
+        elif isinstance(o, dict):
+            for k, v in list(o.items())[:512]:
+                kids.append(("[%s]" % (repr(k)[:40],), v))
+                if isinstance(k, tuple):
+                    kids.append((".key(%s)" % (repr(k)[:40],), k))
+        elif isinstance(o, (list, tuple, set, frozenset)):
+            kids += [("[%d]" % i, v) for i, v in enumerate(list(o)[:512])]
+        else:
+            for attr in ("__dict__", "__wrapped__", "func", "args", "keywords", "__self__", "__func__"):
+                try:
+                    v = getattr(o, attr, None)
+                except Exception:
+                    v = None
+                if v is not None:
+                    kids.append(("." + attr, v))
+        for p, k in kids:
+            if isinstance(k, atoms) or id(k) in seen:
+                continue
+            seen.add(id(k))
+            yield path + p, k
+            if d + 1 < depth:
+                todo.append((path + p, k, d + 1))
+
+
+def _referrers(obj, mine):
+    """who else holds `obj` (gc): short descriptions"""
+    out = []
+    for r in gc.get_referrers(obj):
+        if any(r is m for m in mine) or isinstance(r, types.FrameType):
+            continue
+        if isinstance(r, dict):
+            k = next((k for k, v in r.items() if v is obj), None)
+            out.append("a dict, key %s" % repr(k)[:60])
+        elif isinstance(r, types.CellType):
+            out.append("a closure cell")
+        else:
+            out.append("a %s" % type(r).__name__)
+    return out[:4]
+
+
+def _run_history(c, ws):
+    held, obs_steps, funcs = [], [], []
+    ident = {"shared": [], "changed": [], "retained": [], "reachable": []}
+    mine = [held]
+    for k, st in enumerate(c["steps"]):
+        obs, out, extra, f = _call_obs(st, ws)
+        obs_steps.append(obs)
+        if f is not None and not any(f is g for _k, g in funcs):
+            funcs.append((k, f))
+        # the lists handed out earlier belong to the caller: this call must not have changed them
+        for i, h in enumerate(held):
+            if h is not None and not _same_items(h[0], h[1]):
+                ident["changed"].append({"earlier": i, "by": k, "now": _floats_text(h[0]), "was": _floats_text(h[1])})
+                h[1] = list(h[0])
+        if isinstance(out, list):
+            twins = [i for i, h in enumerate(held) if h is not None and h[0] is out]
+            if twins:
+                ident["shared"].append({"earlier": twins[0], "later": k})
+            elif extra > 0:
+                # (gc.get_referrers walks the whole heap: only for the first one of a history)
+                who = _referrers(out, mine) if not ident["retained"] else ["see call %d" % (ident["retained"][0]["step"] + 1)]
+                ident["retained"].append({"step": k, "refs": extra, "by": who})
+            h = [out, None]
+            mine.append(h)
+            _mutate(out, st.get("mut", "none"))
+            h[1] = list(out)
+            for i in twins:
+                held[i][1] = list(out)
+            held.append(h)
+        else:
+            held.append(None)
+    # after all the changes: no list of the caller is reachable from a strategy function
+    ids = {}
+    for i, h in enumerate(held):
+        if h is not None:
+            ids.setdefault(id(h[0]), i)
+    for k, f in funcs:
+        if not ids:
+            break
+        for path, o in _reachable(f):
+            if id(o) in ids and isinstance(o, list):
+                ident["reachable"].append({"step": ids.pop(id(o)), "from_call": k, "path": path[-160:]})
+                if not ids:
+                    break
+    return {"steps": obs_steps, "identity": ident}
+
+
+def _write_all(fd, data):
+    while data:
+        data = data[os.write(fd, data):]
+
+
+def _read_all(fd):
+    chunks = []
+    while True:
+        b = os.read(fd, 1 << 16)
+        if not b:
+            return b"".join(chunks)
+        chunks.append(b)
+
+
+_zyg = {}
+
+
+def _pristine_copy():
+    """A forked copy of this process made before any strategy was called.  A history of world "imported" runs in a
+    child of that copy: on the imported `audiolazy.window` / `wsymm` objects themselves, always from the state the
+    import leaves (reproducible by `./check --replay`), and nothing it does reaches the other cases."""
+    if "w" in _zyg or _zyg.get("failed"):
+        return _zyg
+    try:
+        import audiolazy  # noqa: F401  (imported by the parent, inherited by the copy)
+        down_r, down_w = os.pipe()
+        up_r, up_w = os.pipe()
+        pid = os.fork()
+    except Exception as e:           # no fork here: the histories run in-process instead
+        _zyg["failed"] = "%s: %s" % (type(e).__name__, e)
+        return _zyg
+    if pid == 0:
+        try:
+            os.close(down_w)
+            os.close(up_r)
+            fin = os.fdopen(down_r, "rb")
+            while True:
+                line = fin.readline()
+                if not line:
+                    break
+                r, w = os.pipe()
+                g = os.fork()
+                if g == 0:
+                    try:
+                        os.close(r)
+                        try:
+                            case = json.loads(line.decode())
+                            ws = _fresh_world() if case.get("world", "new") == "new" else None
+                            data = json.dumps(dict(_run_history(case, ws), separate_process=True))
+                        except BaseException as e:      # reported by the parent as an unmapped outcome
+                            data = json.dumps({"err": "UNMAPPED:" + err_kind(e), "trace": repr(e)[:300]})
+                        _write_all(w, data.encode())
+                    finally:
+                        os._exit(0)
+                os.close(w)
+                data = _read_all(r)
+                os.close(r)
+                os.waitpid(g, 0)
+                _write_all(up_w, data + b"\n")
+        finally:
+            os._exit(0)
+    os.close(down_r)
+    os.close(up_w)
+    _zyg.update(pid=pid, w=down_w, r=os.fdopen(up_r, "rb"))
+    return _zyg
+
+
+def _impl_history(c):
+    """World "new": in this process on a second instance of lazy_analysis — as long as no history has shown an
+    aliasing anomaly.  From the first anomaly on (state that survives a history may then exist, possibly outside
+    that module instance) every history runs in a child of the pristine copy of the process, like world "imported"
+    always does: what a failing history shows never depends on the histories run before it."""
+    if c.get("world", "new") == "new" and not _zyg.get("suspect"):
+        try:
+            ws = _fresh_world()
+        except Exception as e:   # imports as a package member but not as a second instance: use the imported objects
+            r = _impl_history(dict(c, world="imported"))
+            r["fresh_world_failed"] = "%s: %s" % (type(e).__name__, str(e)[:200])
+            return r
+        r = _run_history(c, ws)
+        if any(r["identity"].values()):
+            _zyg["suspect"] = True
+        return r
+    z = _pristine_copy()
+    if "w" not in z:
+        ws = _fresh_world() if c.get("world", "new") == "new" else None
+        return dict(_run_history(c, ws), no_fork=z.get("failed"))
+    _write_all(z["w"], (json.dumps(c) + "\n").encode())
+    line = z["r"].readline()
+    if not line:
+        for k in ("w", "r", "pid"):
+            _zyg.pop(k, None)
+        _zyg["failed"] = "the pristine copy of the process died"
+        return {"err": "OTHER:pristine-copy-died"}
+    return json.loads(line.decode())
 
 
 def request(c):
+    if c["entry"] == "history":
+        return {"entry": "history", "calls": [request(dict(s, entry="call")) for s in c["steps"]]}
     return {"entry": "call", "dict": c["dict"], "name": c["name"], "size": c["size"], "alpha": c.get("alpha")}
 
 
@@ -722,8 +1246,69 @@ def _sym_tol(kind, alpha):
     return TOL
 
 
+def _call_text(st):
+    a = _alpha_of(st)
+    args = "%d" % st["size"] + ("" if a is None else (", alpha=%r" if st.get("alpha_kw") else ", %r") % a)
+    if st["name"] is None:
+        return "%s(%s)" % (st["dict"], args)
+    route = st.get("route", "item")
+    other = "window" if st["dict"] == "wsymm" else "wsymm"
+    link = "symm" if st["dict"] == "wsymm" else "periodic"
+    head = {"attr": "%s.%s" % (st["dict"], st["name"]), "dictlink": "%s.%s[%r]" % (other, link, st["name"]),
+            "funclink": "%s[%r].%s" % (other, st["name"], link)}.get(route, "%s[%r]" % (st["dict"], st["name"]))
+    return "%s(%s)" % (head, args)
+
+
+def _history_text(c, upto=None):
+    parts = []
+    steps = c["steps"] if upto is None else c["steps"][:upto + 1]
+    for k, st in enumerate(steps):
+        parts.append("p%d = %s" % (k + 1, _call_text(st)))
+        if st.get("mut", "none") != "none" and (upto is None or k < upto):
+            parts.append(MUT_TEXT[st["mut"]].format(p="p%d" % (k + 1)))
+    return "; ".join(parts)
+
+
+VALUE_CLAUSES = ("length", "size1", "closed-form", "range", "symmetry", "periodic-prefix", "cola2", "cola4",
+                 "complex-sample")
+
+
+def _history_problems(c, io, drv):
+    """every call of the history against the model/spec of that call alone, then the identity facts"""
+    out = []
+    steps = c["steps"]
+    sio, sdrv = io.get("steps"), drv.get("steps")
+    if not (isinstance(sio, list) and isinstance(sdrv, list) and len(sio) == len(sdrv) == len(steps)):
+        return [("model", "history-not-run", "impl observation %s" % _brief(io))]
+    for k, (st, o, d) in enumerate(zip(steps, sio, sdrv)):
+        for kind, clause, detail in _problems(dict(st, entry="call"), o, d):
+            out.append((kind, clause, "call %d of {%s}: %s" % (k + 1, _history_text(c, k), detail)))
+    ident = io.get("identity") or {}
+    objs = drv.get("objects") or []
+    for e in ident.get("shared", ()):
+        i, j = e["earlier"], e["later"]
+        if i < len(objs) and j < len(objs) and objs[i] is not None and objs[i] == objs[j]:
+            continue                                   # (the model never says so: history_fresh_objects)
+        out.append(("spec", "same-object", "call %d returned the very list object call %d had returned (the caller's by "
+                    "then) in {%s}; every call returns a new list (model objects %s)" % (
+                        j + 1, i + 1, _history_text(c, j), objs)))
+    for e in ident.get("changed", ()):
+        out.append(("spec", "earlier-result-changed", "the list returned by call %d was %s and is %s after call %d of {%s}" % (
+            e["earlier"] + 1, e["was"], e["now"], e["by"] + 1, _history_text(c, e["by"]))))
+    for e in ident.get("retained", ()):
+        out.append(("spec", "retained-reference", "the list returned by call %d of {%s} is still referenced by the "
+                    "implementation (%d extra reference(s): %s)" % (e["step"] + 1, _history_text(c, e["step"]), e["refs"],
+                                                                  "; ".join(e["by"]) or "not a gc container")))
+    for e in ident.get("reachable", ()):
+        out.append(("spec", "reachable-from-strategy", "after {%s} the caller's list p%d is the object <strategy of call %d>%s" % (
+            _history_text(c), e["step"] + 1, e["from_call"] + 1, e["path"])))
+    return out
+
+
 def _problems(c, io, drv):
     """-> list of (kind, clause, detail)"""
+    if c["entry"] == "history":
+        return _history_problems(c, io, drv)
     out = []
     model, spec = drv["model"], drv.get("spec")
     vals = None
@@ -830,11 +1415,85 @@ def compare(c, io, drv):
 
 
 def nontrivial(c, io):
+    if c["entry"] == "history":
+        so = io.get("steps") or []
+        return len(so) >= 2 and any(len(o.get("out", ())) >= 2 for o in so)
     return len(io.get("out", ())) >= 2 or (isinstance(io.get("doc"), list) and len(io["doc"]) >= 2)
+
+
+def _eff_alpha(st):
+    kind = _kind_of(st["name"])
+    a = _alpha_of(st)
+    if a is None and kind in ALPHA_KINDS:
+        a = ALPHA_DEFAULT[kind]
+    return None if a is None else float(a)
+
+
+def _relation(a, b):
+    """relation between two calls of a history (spec side: documented names / sharing)"""
+    ka, kb = _kind_of(a["name"]), _kind_of(b["name"])
+    if ka is None or kb is None:
+        return "unknown-name"
+    if ka != kb:
+        return "other-strategy" + ("-same-size" if a["size"] == b["size"] else "")
+    sa, sb = a["dict"] == "wsymm" and ka != "rect", b["dict"] == "wsymm" and kb != "rect"
+    same_alpha = _eff_alpha(a) == _eff_alpha(b)
+    if sa == sb:
+        if a["size"] == b["size"] and same_alpha:
+            if a["dict"] != b["dict"]:
+                return "same-function-other-dict(rect)"
+            if a["name"] != b["name"]:
+                return "default-strategy" if None in (a["name"], b["name"]) else "alias"
+            if (a.get("alpha"), a.get("alpha_int"), a.get("alpha_kw")) != (b.get("alpha"), b.get("alpha_int"), b.get("alpha_kw")):
+                return "same-args-other-alpha-spelling"
+            return "same-call" if a.get("route", "item") == b.get("route", "item") else "same-call-other-route"
+        if a["size"] == b["size"]:
+            return "same-function-other-alpha"
+        return "same-function-size+-1" if abs(a["size"] - b["size"]) == 1 else "same-function-other-size"
+    per, sym = (b, a) if sa else (a, b)
+    if sym["size"] == per["size"] + 1 and same_alpha:
+        return "periodic(size)-vs-symm(size+1)"
+    return "periodic-vs-symm-same-size" if sym["size"] == per["size"] else "periodic-vs-symm-other"
+
+
+def _tally_history(eng, c, io):
+    steps = c["steps"]
+    eng.count("history_calls", len(steps))
+    eng.count("history_world", c.get("world", "new") + (":fallback-imported" if "fresh_world_failed" in io else "") +
+              (":in-process(no fork)" if "no_fork" in io else ":separate-process" if io.get("separate_process") else ":in-process"))
+    so = io.get("steps") or []
+    for k, st in enumerate(steps):
+        eng.count("history_mutation", st.get("mut", "none") if k < len(steps) - 1 else "last:" + st.get("mut", "none"))
+        s = st["size"]
+        eng.count("history_size", "0" if s <= 0 else "1" if s == 1 else "2-16" if s <= 16 else "17-64" if s <= 64 else ">64")
+        if k < len(so):
+            eng.count("history_call_outcome", so[k].get("err", "list"))
+    probe = "no-earlier-list-changed"
+    for j in range(1, len(steps)):
+        for i in range(j):
+            rel = _relation(steps[i], steps[j])
+            eng.count("history_relation", rel)
+            if steps[i].get("mut", "none") != "none":
+                eng.count("history_relation_after_mutation", "%s after %s" % (rel, steps[i]["mut"]))
+                if rel in ("same-call", "same-call-other-route", "alias", "default-strategy", "same-args-other-alpha-spelling",
+                           "same-function-other-dict(rect)"):
+                    probe = "same-arguments-after-mutation"
+                elif probe != "same-arguments-after-mutation":
+                    probe = "related-call-after-mutation"
+    eng.count("history_probe", probe)
+    ident = io.get("identity")
+    if isinstance(ident, dict):
+        bad = [k for k in ("shared", "changed", "retained", "reachable") if ident.get(k)]
+        eng.count("history_identity", "+".join(bad) if bad else "all-objects-distinct,unchanged,unreferenced")
+    else:
+        eng.count("history_identity", "not-observed")
 
 
 def tally(eng, c, io):
     eng.count("entry", c["entry"])
+    if c["entry"] == "history":
+        _tally_history(eng, c, io)
+        return
     if c["entry"] == "docmath":
         d = io.get("doc")
         eng.count("docmath", "evaluated" if isinstance(d, list) else str(d))
@@ -859,10 +1518,78 @@ def tally(eng, c, io):
 
 
 def key(c):
+    if c["entry"] == "history":
+        return "history|" + json.dumps(c, sort_keys=True)
     return "%s|%s|%s|%s|%s|%s|%s" % (c["entry"], c["dict"], c["name"], c["size"], c.get("alpha"), c.get("alpha_int"), c.get("route"))
 
 
+def _shrink_history(c):
+    steps = c["steps"]
+    n = len(steps)
+
+    def mk(new_steps, **kw):
+        d = dict(c, steps=[dict(s) for s in new_steps])
+        d.update(kw)
+        return d
+
+    if c.get("world", "new") != "new":
+        yield mk(steps, world="new")                        # the cheaper world, when the failure allows
+    for i in range(n):                                      # fewer calls
+        if n > 1:
+            yield mk(steps[:i] + steps[i + 1:])
+    if n > 2:
+        yield mk(steps[:1] + steps[-1:])
+        yield mk(steps[-2:])
+    for i in reversed(range(n)):                            # fewer changes by the caller, simpler ones
+        if steps[i].get("mut", "none") != "none":
+            yield mk(steps[:i] + [dict(steps[i], mut="none")] + steps[i + 1:])
+            for m in ("append0", "dec"):
+                if steps[i]["mut"] != m and MUTS.index(steps[i]["mut"]) > MUTS.index(m):
+                    yield mk(steps[:i] + [dict(steps[i], mut=m)] + steps[i + 1:])
+    lo = min(s["size"] for s in steps)                      # smaller sizes, keeping the differences ...
+    for dlt in sorted({lo, lo - 1, lo // 2, 1, 2, 4, 8}):
+        if 0 < dlt <= lo:
+            yield mk([dict(s, size=s["size"] - dlt) for s in steps])
+    if any(s["size"] > 1 for s in steps):                   # ... or the equalities
+        yield mk([dict(s, size=s["size"] // 2) for s in steps])
+        yield mk([dict(s, size=min(s["size"], 1 + (s["size"] > lo))) for s in steps])
+
+    def simpler(s):
+        d = dict(s)
+        if d.get("route", "item") != "item":
+            d["route"] = "item"
+            return d
+        if d.get("alpha") is not None:
+            for k in ("alpha_int", "alpha_kw"):
+                d.pop(k, None)
+            d["alpha"] = None
+            return d
+        for kind, names in _names():
+            if d["name"] in names[1:]:
+                d["name"] = names[0]
+                return d
+        if d["name"] is None:
+            d["name"] = "hann"
+            return d
+        return None
+
+    alls = [simpler(s) or s for s in steps]
+    if alls != steps:
+        yield mk(alls)
+    for i in range(n):
+        d = simpler(steps[i])
+        if d is not None:
+            yield mk(steps[:i] + [d] + steps[i + 1:])
+        for t in (steps[i]["size"] - 1, steps[i]["size"] // 2):
+            if 0 <= t < steps[i]["size"]:
+                yield mk(steps[:i] + [dict(steps[i], size=t)] + steps[i + 1:])
+
+
 def shrink(c):
+    if c["entry"] == "history":
+        for d in _shrink_history(c):
+            yield d
+        return
     s = c["size"]
     for t in sorted({s // 2, s - 1, s - 2, s - 4, 1, 2, 4, 8}):
         if (2 if c["entry"] == "docmath" else 0) <= t < s:
@@ -882,6 +1609,12 @@ def shrink(c):
 
 
 def neighbours(c):
+    if c["entry"] == "history":
+        for s in c["steps"]:
+            yield dict({k: v for k, v in s.items() if k != "mut"}, entry="call")
+        for m in MUTS[:-1]:
+            yield dict(c, steps=[dict(s, mut=m) for s in c["steps"]] + [dict(c["steps"][0], mut="none")])
+        return
     for ds in (-2, -1, 1, 2, 3):
         if c["size"] + ds >= 0:
             yield dict(c, size=c["size"] + ds)
@@ -895,6 +1628,15 @@ def neighbours(c):
 
 
 def classify(c, io, drv):
+    if c["entry"] == "history":
+        # coarse on purpose (one representative is minimised per signature): wrong samples after a history, or —
+        # when the samples are right — which identity fact fails
+        ps = _problems(c, io, drv)
+        spec = [p for p in ps if p[0] == "spec"]
+        if any(p[1] in VALUE_CLAUSES or p[1].startswith("raises-") for p in spec):
+            return "history:wrong-samples"
+        p = (spec or ps or [("", "none", "")])[0]
+        return "history:" + p[1]
     ps = _problems(c, io, drv)
     spec = [p for p in ps if p[0] == "spec"]
     p = (spec or ps or [("", "none", "")])[0]
